@@ -33,6 +33,9 @@ FILES = [
     "deep/er/c.json",
     "ünï dir/d e.json",
     "deep/f.json",
+    # same stem up to the first dot, same directory
+    "deep/set.v1.json",
+    "deep/set.v2.json",
 ]
 
 WRITE_FAULTS = [
@@ -77,7 +80,11 @@ class AoefSim:
         self.worlds: dict = {}
         self.files: dict = {}
         self.handles: dict = {}
-        self.now = dt.datetime(2020, 1, 1) + dt.timedelta(
+        # The simulated wall clock runs ahead of the machine's: file
+        # timestamps come from the real kernel clock, and a "how old is this
+        # lock file" test that mixes the two must see old files (the writer
+        # that left them is dead), never files from the future.
+        self.now = dt.datetime(2040, 1, 1) + dt.timedelta(
             seconds=seed_tag % 100_000_000
         )
         self.log = EventLog()
@@ -434,7 +441,9 @@ class AoefSim:
         reply = node.call("touch", world=key, seed=op["seed"])
         self.record(op, reply["outcome"], edits=reply.get("edits"))
         self.trace.append(("touch", len(reply.get("edits") or [])))
-        if reply["outcome"] == "ack":
+        if reply["outcome"] == "ack" and any(
+            e != "refused" for e in reply.get("edits") or []
+        ):
             self.probes.hit("touch:live-objects-edited-in-place")
 
     def do_edit(self, op):
@@ -450,7 +459,7 @@ class AoefSim:
         if reply["outcome"] == "ack":
             # new content: what is saved next starts a new history
             handle.update(canon=reply["canon"], cycles=0)
-            if reply.get("edits"):
+            if any(e != "refused" for e in reply.get("edits") or []):
                 self.probes.hit("edit:loaded-objects-edited-in-place")
 
     # ---------------------------------------------------------------- save
@@ -554,6 +563,8 @@ class AoefSim:
                 self.probes.hit("save:audio-dir-positional")
         if after is not None and outcome == "ack" and len(after) >= 100_000:
             self.probes.hit("save:document>=100kB")
+            if len(after) >= (1 << 20):
+                self.probes.hit("save:document>=1MiB")
         if entry_before["status"] != "absent":
             self.probes.hit("save:overwrite")
             if (
@@ -1418,6 +1429,8 @@ PATTERNS = {
     "C18": [
         ("pat_relocate", 5),
         ("pat_outside", 4),
+        ("pat_touch", 2),
+        ("pat_edit_loaded", 2),
         ("pat_all_types", 2),
         ("pat_roundtrip", 2),
         ("pat_cycle", 1),
@@ -1539,8 +1552,14 @@ SHAPE_PROBES = [
     "shape:geometry-none",
     "shape:same-object-twice-in-a-reference-list",
 ] + [f"shape:geometry-{g}" for g in specs.GEOMETRY_KINDS]
+# advisory: whether they can be hit depends on the library under test (does
+# it pass through the intercepted primitives, do its models allow assignment)
 SEAM_PROBES = {
-    "C01": WRITE_FAULTS + READ_FAULTS + ["save:success-after-failed-save"],
+    "C01": WRITE_FAULTS + READ_FAULTS + [
+        "save:success-after-failed-save",
+        "touch:live-objects-edited-in-place",
+        "edit:loaded-objects-edited-in-place",
+    ],
 }
 CORE_PROBES = {
     "C01": SHAPE_PROBES + [
